@@ -71,14 +71,18 @@ def owed : Ctl → List Dir → List Dir
 def Owe (S : PSt) : Prop :=
   ∀ p d, engaged ((S.comp d).pc p) = true → d ∈ owed (S.ctl p) (S.path p)
 
+/-- the recorded outcome is not a failed release -/
+def okOut : Out → Prop
+  | .failedRel _ => False
+  | _ => True
+
 /-- the control state is well formed, the exit handler is registered, and no release has failed -/
 def CtlOk : Ctl → Prop
   | .acq _ => True
   | .unw j k _ => j < k
   | .body _ reg => reg = true
-  | .rel j n _ o => j < n ∧ o = .done
-  | .fin (.failedRel _) => False
-  | .fin _ => True
+  | .rel j n _ o => j < n ∧ okOut o
+  | .fin o => okOut o
 
 structure PInv (S : PSt) : Prop where
   inv  : ∀ d, Inv (S.comp d)
@@ -90,7 +94,7 @@ theorem pinv_minit (kind : Pid → Kind) (lp : Pid → Option Pid) (tries : Pid 
     (explicit : Pid → Bool) : PInv (minit kind lp tries path explicit) := by
   refine ⟨fun _ => inv_init kind lp tries, ?_, ?_, ?_⟩
   · intro d q e; simp [minit, init]
-  · intro p; simp only [minit]; split <;> simp [CtlOk]
+  · intro p; simp only [minit]; split <;> simp [CtlOk, okOut]
   · intro p d he; simp [minit, init, engaged] at he
 
 theorem relComp_pc_other (s : St) (i q : Pid) (h : q ≠ i) : (relComp s i).pc q = s.pc q := by
@@ -141,7 +145,7 @@ theorem ok_mstep (S : PSt) (i : Pid) (h : PInv S) : ∀ p, CtlOk ((mstep S i).ct
       split
       · rw [hc]; trivial
       · repeat' split
-        all_goals simp [CtlOk, hc]
+        all_goals simp [CtlOk, okOut, hc]
         all_goals omega
     | unw j k err =>
       rw [hc] at hok
@@ -153,18 +157,18 @@ theorem ok_mstep (S : PSt) (i : Pid) (h : PInv S) : ∀ p, CtlOk ((mstep S i).ct
         split
         · split
           · simp [CtlOk]; omega
-          · simp [CtlOk]
+          · simp [CtlOk, okOut]
         · rename_i e' hs; exact absurd hs (relComp_no_fail S p h d0 e')
         · simp [CtlOk, hc, hjk]
     | body n reg =>
       unfold mstep; simp only [hc]
       repeat' split
-      all_goals simp [CtlOk]
+      all_goals simp [CtlOk, okOut]
       all_goals simp_all
       all_goals omega
     | rel j n more o =>
       rw [hc] at hok
-      obtain ⟨hjn, ho⟩ : j < n ∧ o = .done := hok
+      obtain ⟨hjn, ho⟩ : j < n ∧ okOut o := hok
       unfold mstep; simp only [hc]
       split
       · rw [hc]; exact ⟨hjn, ho⟩
@@ -311,5 +315,56 @@ theorem pinv_mrun (S : PSt) (sched : List Pid) (h : PInv S) : PInv (mrun S sched
   induction sched generalizing S with
   | nil => exact h
   | cons i r ih => exact ih (mstep S i) (pinv_mstep S i h)
+
+theorem pinv_mintr (S : PSt) (i : Pid) (h : PInv S) : PInv (mintr S i) := by
+  have e := mintr_effect S i
+  refine ⟨e.inv h.inv, e.noRelFail h.inv h.norf, ?_, ?_⟩
+  · intro p
+    by_cases hp : p = i
+    · subst hp
+      have hok := h.ok p
+      unfold mintr
+      cases hc : S.ctl p with
+      | body n reg =>
+        simp only []
+        split
+        · simp [CtlOk, okOut]
+        · simp [CtlOk, okOut]; omega
+      | acq k => simp only []; rw [hc]; trivial
+      | unw a b c => simp only []; rw [hc] at hok ⊢; exact hok
+      | rel a b c o => simp only []; rw [hc] at hok ⊢; exact hok
+      | fin o => simp only []; rw [hc] at hok ⊢; exact hok
+    · rw [e.ctlOther p hp]; exact h.ok p
+  · unfold mintr
+    cases hc : S.ctl i with
+    | body n reg =>
+      have key : ∀ c' : Ctl, (∀ d, d ∈ (S.path i).take n → d ∈ owed c' (S.path i)) → Owe (setCtl S i c') := by
+        intro c' hsub p d he
+        have := h.owe p d he
+        by_cases hp : p = i
+        · subst hp
+          rw [hc] at this
+          simp only [setCtl_ctl_same, setCtl_path]
+          exact hsub d this
+        · simpa [setCtl_ctl_other _ _ _ _ hp] using this
+      simp only []
+      split
+      all_goals apply key
+      all_goals intro d hd
+      all_goals simp_all [owed]
+    | acq k => exact h.owe
+    | unw a b c => exact h.owe
+    | rel a b c o => exact h.owe
+    | fin o => exact h.owe
+
+theorem pinv_mrunE (S : PSt) (evs : List MEv) (h : PInv S) : PInv (mrunE S evs) := by
+  induction evs generalizing S with
+  | nil => exact h
+  | cons e r ih =>
+    rw [mrunE_cons]
+    refine ih (mstepE S e) ?_
+    cases e with
+    | call i => exact pinv_mstep S i h
+    | intr i => exact pinv_mintr S i h
 
 end EupsModel.LockPathR
